@@ -293,8 +293,8 @@ func (e *tExp) ExportSpans(_ context.Context, spans []sdktrace.ReadOnlySpan) err
 	if len(items) == 0 {
 		return nil // probe spans only
 	}
+	e.c.em.ev("Export", "c", e.c.id, "items", items, "val", 0) // logged where the export BEGINS (before any gate / re-entry)
 	e.c.re.fire("exp.Export", e.c.id)
-	e.c.em.ev("Export", "c", e.c.id, "items", items, "val", 0)
 	e.c.f.mu.Lock()
 	for _, n := range items {
 		e.c.f.exp[n] = true
@@ -448,8 +448,8 @@ func (e *lExp) Export(_ context.Context, recs []sdklog.Record) error {
 	if len(items) == 0 {
 		return nil
 	}
+	e.c.em.ev("Export", "c", e.c.id, "items", items, "val", 0) // logged where the export BEGINS
 	e.c.re.fire("exp.Export", e.c.id)
-	e.c.em.ev("Export", "c", e.c.id, "items", items, "val", 0)
 	e.c.f.mu.Lock()
 	for _, n := range items {
 		e.c.f.exp[n] = true
